@@ -435,8 +435,18 @@ def run_legacy_layout(case, part):
         # a type directory that holds flat files only
         tool = {"type": "tool", "spec_version": "2.1", "id": "tool--" + V4 + "1", "created": TS, "modified": TS, "name": "t", "x_foo": "bar"}
         write(tool, True, "tool")
-        for allow in (False, True):
-            src = FileSystemSource(d, allow_custom=allow)
+        from stix2 import FileSystemStore
+        # every documented way to obtain a reading end over the directory x the allow_custom answer it was given; a store built with an explicit answer applies it to BOTH ends,
+        # a store built without one reads permissively and writes strictly (class docstring)
+        readers = [("FileSystemSource", False, lambda: FileSystemSource(d, allow_custom=False)), ("FileSystemSource", True, lambda: FileSystemSource(d, allow_custom=True)),
+                   ("FileSystemSource(default)", True, lambda: FileSystemSource(d)),
+                   ("FileSystemStore(allow_custom=False)", False, lambda: FileSystemStore(d, allow_custom=False)), ("FileSystemStore(allow_custom=True)", True, lambda: FileSystemStore(d, allow_custom=True)),
+                   ("FileSystemStore(d, False)", False, lambda: FileSystemStore(d, False)), ("FileSystemStore(d, True)", True, lambda: FileSystemStore(d, True)),
+                   ("FileSystemStore(default)", True, lambda: FileSystemStore(d)), ("FileSystemStore(allow_custom=None)", True, lambda: FileSystemStore(d, allow_custom=None)),
+                   ("FileSystemStore(allow_custom=False, bundlify=True)", False, lambda: FileSystemStore(d, allow_custom=False, bundlify=True)),
+                   ("FileSystemStore(allow_custom=False).source", False, lambda: FileSystemStore(d, allow_custom=False).source)]
+        for rname, allow, mkreader in readers:
+            src = mkreader()
             verdict = {}
             for oname, o in (("custom/current-layout", custom_cur), ("custom/flat-file-next-to-id-directories", custom_flat), ("custom/flat-file-only-directory", tool), ("plain/flat-file", plain_flat)):
                 for mname, fn in (("get", lambda o=o: src.get(o["id"])), ("all_versions", lambda o=o: src.all_versions(o["id"])),
@@ -449,18 +459,50 @@ def run_legacy_layout(case, part):
                         verdict[(oname, mname)] = "returned" if r else "nothing"
                     except Exception as e:
                         verdict[(oname, mname)] = "refused"
-            part.state(("legacy-layout", allow, tuple(sorted(verdict.items()))), nontrivial=True)
+            part.state(("legacy-layout", rname, allow, tuple(sorted(verdict.items()))), nontrivial=True)
             for (oname, mname), v in sorted(verdict.items()):
-                c = {"kind": "legacy-layout", "allow_custom": allow, "object": oname, "entry": "FileSystemSource." + mname}
+                c = {"kind": "legacy-layout", "allow_custom": allow, "object": oname, "entry": rname + "." + mname}
                 if oname.startswith("custom/") and not allow and v == "returned":
                     part.outcome("legacy:strict-RETURNED-custom")
-                    part.violation("C04/strict-store-returns/%s" % oname, "a strict file-system source returns custom content", c, verdict[("custom/current-layout", mname)] + " (as for the current layout)", v)
+                    part.violation("C04/strict-store-returns/%s%s" % (oname, "" if rname == "FileSystemSource" else "/via-" + rname.split("(")[0]), "a strict file-system source returns custom content", c, verdict[("custom/current-layout", mname)] + " (as for the current layout)", v)
                 elif oname.startswith("custom/") and allow and v != "returned":
                     part.violation("C04/permissive-store-hides/%s" % oname, "a permissive file-system source does not return stored custom content", c, "returned", v)
                 elif oname.startswith("plain/") and v != "returned" and mname not in ("query(type)", "query()") :
                     part.violation("C04/strict-store-hides-plain/%s" % oname, "a file-system source does not return plain content", c, "returned", v)
                 else:
                     part.outcome("legacy:%s" % v)
+        # the writing end of every construction form: custom content is refused exactly when the form is strict
+        from stix2 import FileSystemSink
+        d2 = os.path.join(d, "w")
+        os.makedirs(d2)
+        writers = [("FileSystemSink", False, lambda: FileSystemSink(d2, allow_custom=False)), ("FileSystemSink", True, lambda: FileSystemSink(d2, allow_custom=True)),
+                   ("FileSystemSink(default)", False, lambda: FileSystemSink(d2)),
+                   ("FileSystemStore(allow_custom=False)", False, lambda: FileSystemStore(d2, allow_custom=False)), ("FileSystemStore(allow_custom=True)", True, lambda: FileSystemStore(d2, allow_custom=True)),
+                   ("FileSystemStore(default)", False, lambda: FileSystemStore(d2)), ("FileSystemStore(allow_custom=None)", False, lambda: FileSystemStore(d2, allow_custom=None)),
+                   ("FileSystemStore(allow_custom=True).sink", True, lambda: FileSystemStore(d2, allow_custom=True).sink), ("FileSystemStore(allow_custom=False).sink", False, lambda: FileSystemStore(d2, allow_custom=False).sink)]
+        n = 16
+        for wname, allow, mk_w in writers:
+            for form in ("dict", "text", "list", "bundle-dict"):
+                for oname, content in (("custom", {"x_foo": "bar"}), ("plain", {})):
+                    n += 1
+                    o = dict(mk(0, **content), id="identity--" + V4[:-2] + "%03x" % n, name="w%d" % n)
+                    arg = {"dict": o, "text": json.dumps(o), "list": [o], "bundle-dict": {"type": "bundle", "id": "bundle--" + V4[:-2] + "%03x" % n, "objects": [o]}}[form]
+                    part.evaluations += 1
+                    part.transitions += 1
+                    try:
+                        mk_w().add(arg)
+                        v = "stored"
+                    except Exception as e:
+                        v = "refused"
+                    on_disk = os.path.isdir(os.path.join(d2, "identity", o["id"]))
+                    part.state(("legacy-writer", wname, allow, form, oname, v, on_disk), nontrivial=True)
+                    c = {"kind": "legacy-layout", "allow_custom": allow, "object": oname, "entry": wname + ".add(" + form + ")"}
+                    if oname == "custom" and not allow and (v == "stored" or on_disk):
+                        part.violation("C04/strict-store-accepts/%s" % wname.split("(")[0], "a strict file-system writing end stores custom content", c, "refused, nothing written", v + (", written" if on_disk else ""))
+                    elif (oname == "plain" or allow) and not (v == "stored" and on_disk):
+                        part.violation("C04/store-refuses-admissible/%s/%s" % (wname.split("(")[0], oname), "a file-system writing end refuses content it must admit", c, "stored", v)
+                    else:
+                        part.outcome("legacy-writer:%s" % v)
     finally:
         shutil.rmtree(d, ignore_errors=True)
 
